@@ -24,6 +24,7 @@ type inliner struct {
 	skip func(fn *types.Func) bool // callees that are events of the rule themselves
 	body map[*ast.CallExpr]*ast.BlockStmt
 	exp  map[ast.Expr]ast.Expr
+	asValue bool
 }
 
 func newInliner(p *core.Program, fi *core.FuncInfo, skip func(fn *types.Func) bool) *inliner {
@@ -271,7 +272,13 @@ func (in *inliner) boolLocalDef(id *ast.Ident) ast.Expr {
 		return nil
 	}
 	if _, isCall := ast.Unparen(def).(*ast.CallExpr); isCall {
-		return nil // the result of a call is a value, not a re-evaluable test
+		// the result of a call is a value, not a re-evaluable test — unless the callee is a predicate
+		// helper (one `return <test>`): then the local stands for that test like a hoisted one
+		exp := in.expand(def, 2)
+		if exp == def {
+			return nil
+		}
+		def = exp
 	}
 	mentioned := map[string]bool{}
 	ast.Inspect(def, func(m ast.Node) bool {
@@ -370,10 +377,19 @@ func (in *inliner) boolLocalDef(id *ast.Ident) ast.Expr {
 		}
 	}
 	walk(in.fi.Decl.Body.List)
-	if !safe {
+	if !safe && !in.asValue {
 		return nil
 	}
 	return def
+}
+
+// ExpandValue is Expand for a flag read as a VALUE: what the local was computed from, whatever
+// happened since (the caller compares it with outcomes recorded when the flag was tested, not with a
+// re-evaluation).
+func (in *inliner) ExpandValue(e ast.Expr) ast.Expr {
+	in.asValue = true
+	defer func() { in.asValue = false }()
+	return in.expand(e, 0)
 }
 
 // expandLocals returns e with every local that has exactly one definition in body replaced by that
